@@ -187,13 +187,30 @@ def run(tier, seed):
     t0 = time.time()
     cs = cases(tier)
     st = par.pmap(work, cs, chunk=3)
+    real_ok = [f for f in FAILING if f not in ('UNRESOLVABLE', 'REFUSED', 'CONNTIMEOUT')]    # the twin always accepts the connection
+    mcases = []
+    for i, f in enumerate(H.pick(real_ok, seed, 5 if tier == 'quick' else len(real_ok))):
+        def mkbad(f=f):
+            return MT.FAILING[f]('t0')
+        proto = MT.FAILING[f]('t0')
+        mkbad.faults = getattr(proto, '_planned', {})
+        makers = [mkbad, (lambda: MT.HEALTHY['CLEAN']('t1'))]
+        if i % 2:
+            makers.reverse()
+            # labels are positional: the failing server must keep the label its fault plan was written for
+            def mkbad2(f=f):
+                return MT.FAILING[f]('t1')
+            mkbad2.faults = getattr(MT.FAILING[f]('t1'), '_planned', {})
+            makers = [(lambda: MT.HEALTHY['CLEAN']('t0')), mkbad2]
+        mcases.append((makers, ['-j'] if i % 3 == 0 else [], 1))
+    validated = H.validate_multi_traces(mcases, st)
     return evidence.finish(
         PID, tier, seed, st, t0,
         rule='target lists of length 2 (quick; plus one triple per failure) / 2-3 (thorough) mixing healthy archetypes %s with every failure '
              'archetype %s in every position x threads x {text,-j}; DFS over gate schedules (preemption bound quick 1 / thorough 2); plus '
              'targets-file syntax failures (out-of-range port, blank/whitespace lines); non-trivial = distinct (list, threads, format, completion order)' % (HEALTHY, FAILING),
         assumptions=['thread switches only at virtual I/O gates', 'per-target statuses come from fresh single-target runs in the same environment'],
-        exhaustive=True, extra={'cases': len(cs)})
+        exhaustive=True, traces_validated=validated, extra={'cases': len(cs)})
 
 
 def replay(path):
